@@ -59,9 +59,24 @@ def r1_not_scanned(ctx, rep):
     # call arm is the last arm
     rep.ob("call arm is the last arm", call_arm.index == len(cs.arms) - 1, "", py.nloc(call_arm.test), nontrivial=False)
     # without `calls`, nothing is recorded
-    body = ast.unparse(ast.Module(body=call_arm.body, type_ignores=[]))
-    ok = "not hasattr(self, 'calls') and call_match" in body and "not hasattr(self, 'calls') and subcall_match" in body
-    rep.ob("containers without `calls` do not scan", ok, "", py.nloc(call_arm.test))
+    # the scan is reached only when the container has a `calls` list: every call of the scanner in the arm runs under a
+    # condition that implies hasattr(self, 'calls') (directly, or through earlier `if not hasattr(...): continue` exits)
+    scans = [e for e in astq.trace_block(call_arm.body, cs.fn) if e.kind in ("call", "inline")
+             and call_name(e.node).split(".")[-1] == "_add_procedure_calls"]
+    if not scans:
+        raise AnalysisError("call arm: the call of _add_procedure_calls was not found")
+    def implies_calls(e) -> bool:
+        cts = e.cond_texts()
+        if any(c.startswith("hasattr(self, 'calls')") for c in cts):
+            return True
+        # negated guards: not (not hasattr(...) and m1), not (not hasattr(...) and m2) with m1 or m2 known to hold (arm test)
+        neg = [c for c in cts if c.startswith("not (") and "not hasattr(self, 'calls')" in c]
+        return len(neg) >= len(call_arm.regexes) or any(c == "not (not hasattr(self, 'calls'))" for c in cts)
+    ok = all(implies_calls(e) for e in scans)
+    rep.ob("containers without `calls` do not scan", ok,
+           "each matcher of the arm has an early exit for containers without a `calls` list" if ok else
+           f"_add_procedure_calls is reached under {scans[0].cond_texts()}: a container without `calls` scans the statement",
+           py.nloc(call_arm.test))
     # placeholder language vs call regex
     pat, flags, node, _ = ctx.regexes["FortranContainer.CALL_RE"]
     core = rx.match_lang(r"\w+\s*\(", 0)
@@ -138,7 +153,11 @@ def r2_filter_dominance(ctx, rep):
            f"de-duplication test is `{t}`: two chains ending in the same procedure (a%area(), b%area()) are both "
            f"recorded, and both resolve to one procedure", py.nloc(dd[0]) if dd else py.nloc(ap.node))
     cdef = [e for e in ev if e.kind == "assign" and e.target == chain and e.value is not None]
-    ok = bool(cdef) and ".lower()" in ast.unparse(cdef[0].value) and ".split('%')" in ast.unparse(cdef[0].value)
+    def lowered_split(v):
+        cs_ = [c for c in ast.walk(v) if isinstance(c, ast.Call) and isinstance(c.func, ast.Attribute)]
+        return any(c.func.attr in ("lower", "casefold") for c in cs_) and any(
+            c.func.attr == "split" and c.args and isinstance(c.args[0], ast.Constant) and c.args[0].value == "%" for c in cs_)
+    ok = bool(cdef) and any(lowered_split(x) for x in astq.expand_locals(cdef[0].value, fn))
     rep.ob("chain lower-cased before the tests", ok, "", py.nloc(cdef[0].node) if cdef else py.nloc(fn))
     assoc = [e for e in ev if e.kind == "assign" and e.target and e.target.startswith(chain + "[") and "associations" in ast.unparse(e.value)]
     ok = bool(assoc) and idx[id(assoc[0])] < idx[id(ap)] and not any("INTRINSICS" in c for c in assoc[0].cond_texts())
@@ -234,9 +253,11 @@ def r5_external_and_semicolons(ctx, rep):
            "the EXTERNAL filter runs after stand-alone attribute statements were attached" if not early else
            "`.attribs` is read before self.process_attribs(): `real :: area` + `external area` leaves `area` a variable, "
            "and references `area(x)` are then discarded as array elements", py.nloc(early[0] if early else cl))
-    t = ast.unparse(cl)
-    ok = "'external' not in" in t and "self.variables = [" in t
-    rep.ob("EXTERNAL names are dropped from the variable table", ok, "", py.nloc(cl))
+    refilter = [n for n in ast.walk(cl) if isinstance(n, ast.Assign) and any(ast.unparse(t) == "self.variables" for t in n.targets)
+                and any(isinstance(c, ast.Compare) and isinstance(c.ops[0], (ast.NotIn, ast.In, ast.NotEq, ast.Eq))
+                        and any(isinstance(k, ast.Constant) and k.value == "external" for k in ast.walk(c)) for c in ast.walk(n.value))]
+    rep.ob("EXTERNAL names are dropped from the variable table", bool(refilter),
+           "self.variables is rebuilt without the entities that carry the EXTERNAL attribute", py.nloc(cl))
     # `;`-separated statements: the splitter is exact (shared with C02.R3)
     from . import c02
     c02.r3_scanners(ctx, rep)
